@@ -230,46 +230,8 @@ func checkC16(c *Ctx) {
 			"false for positions at or beyond nargs of a variadic function, otherwise the formal's flag", "IsLazyCallArg no longer is `false in the variadic tail, else the formal's flag`")
 	}
 
-	// ---- C16-REG: a function is known to the compiler before its own body is compiled
-	if f := c.mustFn("C16-REG", "buildSexpFun"); f != nil {
-		known := c.field("Generator", "knownFunctions")
-		var regs []ssa.Instruction
-		var bodies []ssa.Instruction
-		if known != nil {
-			eachInstr(f, func(b *ssa.BasicBlock, i int, in ssa.Instruction) {
-				switch x := in.(type) {
-				case *ssa.MapUpdate:
-					if derivesFromField(x.Map, known, 0) {
-						regs = append(regs, in)
-					}
-				case *ssa.Call:
-					if g := x.Call.StaticCallee(); g != nil && (fnName(g) == "Generator.GenerateBegin" || fnName(g) == "Generator.Generate" || fnName(g) == "Generator.GenerateAll") {
-						bodies = append(bodies, in)
-					}
-				}
-			})
-		}
-		if len(regs) == 0 || len(bodies) == 0 {
-			c.undecided("C16-REG", "buildSexpFun", "registered before its body is compiled", f.Pos(), "registration in knownFunctions or body generation not found")
-		} else {
-			ok := true
-			for _, bd := range bodies {
-				dominated := false
-				for _, r := range regs {
-					// registration under `if len(name) > 0`: the guard block's branch dominates, the body is after the join
-					if dominatesInstr(r, bd) || (blockReaches(r.Block(), bd.Block()) && !blockReaches(bd.Block(), r.Block())) {
-						dominated = true
-					}
-				}
-				if !dominated {
-					ok = false
-				}
-			}
-			c.check(ok, "C16-REG", "buildSexpFun", "registered before its body is compiled", regs[0].Pos(),
-				"the function (with its lazy formals) is in knownFunctions when its own body is compiled: a self call marshals its arguments like any other call",
-				"the function is registered only after its body was compiled: while the body compiles, a self call finds no (or a stale) definition, so arguments for lazy formals are compiled eagerly and the compile-time and run-time marshalling disagree")
-		}
-	}
+	c.checkRegisteredBeforeBody("C16-REG")
+	c.checkGeneratorCtors("ES-CTOR")
 
 	// ---- C16-MEMO
 	if force := c.mustFn("C16-MEMO", "SexpLazyArg.Force"); force != nil {
@@ -429,4 +391,47 @@ func (c *Ctx) checkForcedOnlyOnSuccess(rule string) {
 			"every return that follows the store of the forced flag carries a nil error",
 			"the promise is marked forced on a path that can still return an error: a failed force is memoised as a value, so forcing the same promise again succeeds silently instead of raising the error again or re-evaluating")
 	})
+}
+
+// checkRegisteredBeforeBody: a function is known to the compiler before its own body is compiled.
+func (c *Ctx) checkRegisteredBeforeBody(rule string) {
+	if f := c.mustFn(rule, "buildSexpFun"); f != nil {
+		known := c.field("Generator", "knownFunctions")
+		var regs []ssa.Instruction
+		var bodies []ssa.Instruction
+		if known != nil {
+			eachInstr(f, func(b *ssa.BasicBlock, i int, in ssa.Instruction) {
+				switch x := in.(type) {
+				case *ssa.MapUpdate:
+					if derivesFromField(x.Map, known, 0) {
+						regs = append(regs, in)
+					}
+				case *ssa.Call:
+					if g := x.Call.StaticCallee(); g != nil && (fnName(g) == "Generator.GenerateBegin" || fnName(g) == "Generator.Generate" || fnName(g) == "Generator.GenerateAll") {
+						bodies = append(bodies, in)
+					}
+				}
+			})
+		}
+		if len(regs) == 0 || len(bodies) == 0 {
+			c.undecided(rule, "buildSexpFun", "registered before its body is compiled", f.Pos(), "registration in knownFunctions or body generation not found")
+		} else {
+			ok := true
+			for _, bd := range bodies {
+				dominated := false
+				for _, r := range regs {
+					// registration under `if len(name) > 0`: the guard block's branch dominates, the body is after the join
+					if dominatesInstr(r, bd) || (blockReaches(r.Block(), bd.Block()) && !blockReaches(bd.Block(), r.Block())) {
+						dominated = true
+					}
+				}
+				if !dominated {
+					ok = false
+				}
+			}
+			c.check(ok, rule, "buildSexpFun", "registered before its body is compiled", regs[0].Pos(),
+				"the function (with its lazy formals) is in knownFunctions when its own body is compiled: a self call marshals its arguments like any other call",
+				"the function is registered only after its body was compiled: while the body compiles, a self call finds no (or a stale) definition, so arguments for lazy formals are compiled eagerly and the compile-time and run-time marshalling disagree")
+		}
+	}
 }
